@@ -49,6 +49,7 @@ BUDGET_S = {"quick": 200.0, "thorough": 1500.0}
 
 # debugging aid for the tolerance-margin measurement only (all tolerances are multiplied by it); never set in normal runs
 _TS = float(os.environ.get("VERIF_C12_TOLSCALE", "1"))
+_AS = 1.0     # magnitude of the model outputs of the current case (absolute tolerances and scale floors follow it)
 
 IDENT_KINDS = ("cont1d", "discrete", "int", "image2d", "tuple", "cont2d")
 
@@ -72,12 +73,33 @@ def _dom_templates():
         {"kind": "mapped", "inner": c1, "map": "square", "imap": True, "gradient": True},
         {"kind": "kl", "trunc": True, "gradient": True},
         {"kind": "step", "projection": "mean", "gradient": True},
+        # ---- a library wrapper (MappedGeometry) around every kind of geometry driven above (appended: indices above are used below)
+        # wrapped geometry carries its own `gradient`, the wrapper does not: the map's derivative is missing -> must be refused
+        {"kind": "mapped", "inner": {"kind": "user", "gradient": True}, "map": "sinh", "imap": True},
+        {"kind": "mapped", "inner": {"kind": "user", "gradient": True}, "map": "exp", "imap": False},
+        {"kind": "mapped", "inner": {"kind": "user_c1d", "gradient": True}, "map": "exp", "imap": False},
+        {"kind": "mapped", "inner": {"kind": "user_c1d", "gradient": True}, "map": "affine", "imap": True},
+        {"kind": "mapped", "inner": {"kind": "kl", "trunc": True, "gradient": True}, "map": "affine", "imap": True},
+        {"kind": "mapped", "inner": {"kind": "step", "projection": "mean", "gradient": True}, "map": "sinh", "imap": True},
+        {"kind": "mapped", "inner": {"kind": "mapped", "inner": c1, "map": "sinh", "imap": True, "gradient": True}, "map": "affine", "imap": True},
+        # the wrapper carries the full chain rule, around a geometry that has its own gradient as well
+        {"kind": "mapped", "inner": {"kind": "user", "gradient": True}, "map": "sinh", "imap": True, "gradient": True},
+        {"kind": "mapped", "inner": {"kind": "mapped", "inner": c1, "map": "sinh", "imap": True, "gradient": True}, "map": "affine", "imap": False, "gradient": True},
+        # wrappers around the remaining built-in kinds, and nested wrappers
+        {"kind": "mapped", "inner": {"kind": "discrete"}, "map": "affine", "imap": True},
+        {"kind": "mapped", "inner": {"kind": "step", "projection": "mean"}, "map": "sinh", "imap": True},
+        {"kind": "mapped", "inner": {"kind": "kl", "trunc": False}, "map": "affine", "imap": True},
+        {"kind": "mapped", "inner": {"kind": "mapped", "inner": c1, "map": "sinh", "imap": True}, "map": "affine", "imap": True},
+        {"kind": "mapped", "inner": {"kind": "mapped", "inner": {"kind": "kl", "trunc": True}, "map": "exp", "imap": True}, "map": "affine", "imap": False},
     ]
     imF = {"kind": "image2d", "order": "F"}
     out2 = [
         {"kind": "image2d", "order": "C"}, {"kind": "image2d", "order": "F"}, {"kind": "tuple"}, {"kind": "cont2d"},
         {"kind": "mapped", "inner": imF, "map": "sinh", "imap": True},
         {"kind": "mapped", "inner": imF, "map": "sinh", "imap": True, "gradient": True},
+        {"kind": "mapped", "inner": {"kind": "cont2d"}, "map": "sinh", "imap": True},
+        {"kind": "mapped", "inner": {"kind": "image2d", "order": "C"}, "map": "affine", "imap": False},
+        {"kind": "mapped", "inner": {"kind": "mapped", "inner": imF, "map": "sinh", "imap": True, "gradient": True}, "map": "affine", "imap": True},
     ]
     return out1, out2
 
@@ -90,11 +112,17 @@ def _ran_templates():
         {"kind": "step", "projection": "mean"}, {"kind": "step", "projection": "max"},
         {"kind": "kl", "trunc": True}, {"kind": "kl", "trunc": False},
         {"kind": "user"},
+        # wrappers around the other kinds, nested wrappers
+        {"kind": "mapped", "inner": {"kind": "step", "projection": "mean"}, "map": "affine", "imap": True},
+        {"kind": "mapped", "inner": {"kind": "user"}, "map": "sinh", "imap": True},
+        {"kind": "mapped", "inner": {"kind": "discrete"}, "map": "affine", "imap": True},
+        {"kind": "mapped", "inner": {"kind": "mapped", "inner": c1, "map": "sinh", "imap": True}, "map": "affine", "imap": True},
     ]
     imF = {"kind": "image2d", "order": "F"}
     out2 = [
         {"kind": "image2d", "order": "C"}, {"kind": "image2d", "order": "F"}, {"kind": "tuple"}, {"kind": "cont2d"},
         {"kind": "mapped", "inner": imF, "map": "affine", "imap": True},
+        {"kind": "mapped", "inner": {"kind": "cont2d"}, "map": "sinh", "imap": True},
     ]
     return out1, out2
 
@@ -166,6 +194,8 @@ def cases(tier, seed):
                  "strip": rnd.random() < 0.35, "carrier": rnd.choice(["same_obj", "equal_copy"]),
                  "argname": rnd.choice(["x", "x", "theta"]), "Ns": rnd.randint(1, 6 if thorough else 4), "v": v}
             c.update(extra)
+            if model in ("lin_matrix", "lin_callable") and not extra.get("dist"):
+                c["opscale"] = rnd.choice([1.0, 1.0, 1e-10, 1e10])      # extreme but legal operator magnitudes
             out.append(c)
     # generic models with a direction-Jacobian product and callable-pair linear models: every geometry pair
     for model in ("gen_grad", "lin_callable"):
@@ -362,7 +392,7 @@ def build_geom(spec, ref, strip):
                 # the way the test-suite writes it: derivative of the map at the inner function value, times the direction
                 u = inner_ref.par2fun(np.asarray(wrt, dtype=float))
                 d = np.asarray(direction, dtype=float) if strip else direction
-                return inner_ref.dfun(None).T @ (dmap(u) * d).reshape(-1)
+                return inner_ref.dfun(np.asarray(wrt, dtype=float)).T @ (dmap(u) * d).reshape(-1)
             g.gradient = geom_gradient
         return g
     if k == "user":
@@ -459,6 +489,7 @@ def build(case, rs):
         A = rs.uniform(-1, 1, (m, n))
         if case.get("sparse"):
             A[rs.uniform(size=A.shape) < 0.4] = 0.0
+        A = A * float(case.get("opscale", 1.0))
         op = R.Linear(A)
     elif kind == "wang":
         op = R.WangCubic()
@@ -551,6 +582,8 @@ def _cfg(case, **kw):
     if case.get("shared_grid"):
         c["shared_grid"] = True
     c["strip"] = bool(case.get("strip"))
+    if case.get("opscale", 1.0) != 1.0:
+        c["opscale"] = "tiny" if case["opscale"] < 1 else "huge"
     c.update(kw)
     return c
 
@@ -563,6 +596,8 @@ def _points(ref, rs, k):
 
 def run_case(case, ctx):
     import cuqi
+    global _AS
+    _AS = float(case.get("opscale", 1.0))
     rs = core.np_rng(ctx.seed, PROPERTY, core.canon(case))
     b = build(case, rs)
     model, ref = b.model, b.ref
@@ -622,7 +657,7 @@ def run_case(case, ctx):
                 ctx.violation("forward_unexpectedly_refused", {**cfg, "exc": type(val).__name__}, detail=repr(val)); continue
             ctx.count("forward_value_checked")
             got = _flat(val)
-            if got.shape != y_ref.shape or not ctx.close(got, y_ref, rtol=rtol, atol=1e-11 * _TS):
+            if got.shape != y_ref.shape or not ctx.close(got, y_ref, rtol=rtol, atol=1e-11 * _TS * _AS):
                 ctx.violation("forward_value_mismatch", cfg, detail="p=%s\nforward=%s\nreference par2fun->F->fun2par=%s" % (p.tolist(), got.tolist(), y_ref.tolist()))
             else:
                 n_rep_ok += 1
@@ -630,7 +665,7 @@ def run_case(case, ctx):
                 y_first = got
             else:
                 ctx.count("representation_pairs_checked")
-                if got.shape != y_first.shape or not ctx.close(got, y_first, rtol=rtol, atol=1e-11 * _TS):
+                if got.shape != y_first.shape or not ctx.close(got, y_first, rtol=rtol, atol=1e-11 * _TS * _AS):
                     ctx.violation("forward_representation_mismatch", cfg, detail="%s gives %s, ndarray parameters give %s" % (name, got.tolist(), y_first.tolist()))
             # wrapping
             ctx.count("forward_wrap_checked")
@@ -663,7 +698,7 @@ def run_case(case, ctx):
         for j in range(Ns):
             ctx.count("samples_columns_checked")
             yj = ref.forward(P[:, j])
-            if not ctx.close(arr[:, j], yj, rtol=rtol, atol=1e-11 * _TS):
+            if not ctx.close(arr[:, j], yj, rtol=rtol, atol=1e-11 * _TS * _AS):
                 ctx.violation("forward_value_mismatch", cfg, detail="column %d of forward(Samples)=%s reference=%s" % (j, arr[:, j].tolist(), yj.tolist()))
     # a sample collection of *function values* (Samples.funvals, is_par=False): honoured like a CUQIarray of function values, or refused
     if not expect_fwd_refusal:
@@ -679,7 +714,7 @@ def run_case(case, ctx):
             else:
                 arr = np.asarray(getattr(val, "samples", val), dtype=float)
                 want = np.column_stack([ref.forward(P[:, j]) for j in range(Ns)])
-                if arr.shape != want.shape or not ctx.close(arr, want, rtol=rtol, atol=1e-11 * _TS):
+                if arr.shape != want.shape or not ctx.close(arr, want, rtol=rtol, atol=1e-11 * _TS * _AS):
                     ctx.violation("forward_samples_funvals_as_parameters", cfg,
                                   detail="forward(Samples(P).funvals) = %s, forward(Samples(P)) = %s" % (arr.tolist(), want.tolist()))
     nonident = not (b.dom_ident and b.ran_ident)
@@ -745,7 +780,7 @@ def _gradient_monitor(case, ctx, b, rs, rtol):
                 ctx.count("fd_jacobian_columns", len(p))
         if J_lib is not None and J_ref is not None:
             ctx.count("fd_jacobian_vs_reference")
-            sc = max(1.0, float(np.max(np.abs(J_ref))))
+            sc = max(_AS, float(np.max(np.abs(J_ref))))
             if not np.all(np.abs(J_lib - J_ref) <= 1e3 * _TS * err + 1e-6 * _TS * sc):
                 ctx.inconclusive("finite differences of the real forward disagree with the analytic reference Jacobian (max %g, fd error estimate %g)"
                                  % (float(np.max(np.abs(J_lib - J_ref))), err))
@@ -799,9 +834,9 @@ def _gradient_monitor(case, ctx, b, rs, rtol):
                     ctx.violation("gradient_not_refused", cfg, detail="no parameter-to-parameter map exists (range geometry without fun2par) but gradient returned a value")
                     continue
                 ctx.count("gradient_value_checked")
-                sc = max(1.0, float(np.max(np.abs(g_exp))))
+                sc = max(_AS, float(np.max(np.abs(g_exp))))
                 tol = (rtol * 10 if J_ref is not None else 0.0) * sc + (0.0 if J_ref is not None else 1e3 * _TS * err * np.sqrt(len(d)) + 1e-6 * _TS * sc)
-                bad = got.shape != g_exp.shape or not np.all(np.isfinite(got)) or not np.all(np.abs(got - g_exp) <= tol + 1e-11 * _TS)
+                bad = got.shape != g_exp.shape or not np.all(np.isfinite(got)) or not np.all(np.abs(got - g_exp) <= tol + 1e-11 * _TS * _AS)
                 if not bad and g_fd is not None:
                     ctx.count("gradient_vs_fd_of_real_forward")
                     bad = not np.all(np.abs(got - g_fd) <= 1e3 * _TS * err * np.sqrt(len(d)) + 1e-5 * _TS * sc)
@@ -816,7 +851,7 @@ def _gradient_monitor(case, ctx, b, rs, rtol):
                     g_first = got
                 elif got.shape == g_first.shape:
                     ctx.count("gradient_pairs_checked")
-                    if not ctx.close(got, g_first, rtol=rtol * 10, atol=1e-11 * _TS):
+                    if not ctx.close(got, g_first, rtol=rtol * 10, atol=1e-11 * _TS * _AS):
                         ctx.violation("gradient_representation_mismatch", cfg, detail="%s/%s gives %s, first representation gave %s" % (dname, wname, got.tolist(), g_first.tolist()))
                 ctx.count("gradient_wrap_checked")
                 why = _wrap_problem(val, wrap, dom_g, ref.dom.par_dim, CUQIarray)
@@ -890,7 +925,7 @@ def _history_monitor(case, ctx, b, rs, rtol):
             return                                           # refusals of single calls are judged by the forward monitor
         y_ref = ref.forward(x)
         ctx.count("forward_history_checked")
-        if not ctx.close(_flat(val), y_ref, rtol=rtol, atol=1e-11 * _TS):
+        if not ctx.close(_flat(val), y_ref, rtol=rtol, atol=1e-11 * _TS * _AS):
             ctx.violation("forward_history_mismatch", cfg, detail="call %d of a sequence on one model, input buffer updated in place: forward=%s, reference at the current values=%s"
                           % (k, _flat(val).tolist(), y_ref.tolist()))
         unchanged("forward", [before], [arg], cfg)
@@ -906,8 +941,8 @@ def _history_monitor(case, ctx, b, rs, rtol):
                           {**cfg, "exc": type(val).__name__, "drep": "nd_par", "wrep": cname}, detail=repr(val))
             return
         g_exp = factor * jtd(x.copy(), d)
-        sc = max(1.0, float(np.max(np.abs(g_exp))))
-        tol = (rtol * 10 * sc + 1e-11 * _TS) if ref.jac(x) is not None else 1e-6 * _TS * sc
+        sc = max(_AS, float(np.max(np.abs(g_exp))))
+        tol = (rtol * 10 * sc + 1e-11 * _TS * _AS) if ref.jac(x) is not None else 1e-6 * _TS * sc
         ctx.count("gradient_history_checked")
         got = _flat(val)
         if got.shape != g_exp.shape or not np.all(np.isfinite(got)) or not np.all(np.abs(got - g_exp) <= tol):
@@ -1019,7 +1054,7 @@ def _dist_monitor(case, ctx, b, rs):
         ctx.count("dist_forward_checked")
         if kind_ != "value":
             ctx.violation("dist_rename_forward_failed", {**cfg, "call": name}, detail=repr(val)); continue
-        if not ctx.close(_flat(val), y_ref, rtol=rtol, atol=1e-11 * _TS):
+        if not ctx.close(_flat(val), y_ref, rtol=rtol, atol=1e-11 * _TS * _AS):
             ctx.violation("dist_rename_forward_mismatch", {**cfg, "call": name}, detail="%s vs reference %s" % (_flat(val).tolist(), y_ref.tolist()))
     if new_name != old_name[0]:
         for name, call in (("new_by_old_name", lambda: new(**{old_name[0]: p.copy()})), ("orig_by_new_name", lambda: model(**{new_name: p.copy()}))):
